@@ -437,6 +437,23 @@ def check_logprob_columns(pb, opts, out, row_tags, ll_lib):
 
 
 # ---------------------------------------------------------------- one monitored rejection_sample call
+def snapshot_inputs(pb):
+    """Bit patterns of what the caller hands over: the library table and the data arrays."""
+    snap = {"lib:" + k: np.array(getattr(pb.lib[k], "value", pb.lib[k]), copy=True).tobytes() for k in pb.lib.par_names}
+    datas = pb.data if isinstance(pb.data, (list, tuple)) else list(pb.data.values()) if isinstance(pb.data, dict) else [pb.data]
+    for j, d in enumerate(datas):
+        snap["data%d:t" % j] = np.array(d._t_bmjd, copy=True).tobytes()
+        snap["data%d:rv" % j] = np.array(d.rv.value, copy=True).tobytes()
+        snap["data%d:err" % j] = np.array(d.rv_err.value, copy=True).tobytes()
+    return snap
+
+
+def inputs_changed(pb, snap):
+    """Names of caller-owned arrays that no longer have the bit pattern they had before the call."""
+    now = snapshot_inputs(pb)
+    return sorted(k for k in snap if now.get(k) != snap[k]) + sorted(k for k in now if k not in snap)
+
+
 def dress_counts(rng, opts, desc=None):
     """The same request with its integer-valued options as numpy integers (what `len(x) // 2` on arrays or
     `np.sum(mask)` hand to the API) in a quarter of the sessions; the checkers keep reading the plain `opts`."""
@@ -522,8 +539,10 @@ def one_session(ctx, i, rng, return_logprobs=False, force=None, problem_kw=None,
     recgen.reset()
     g = recgen.make(seed)
     joker = TheJoker(pb.prior, rng=g, tempfile_path=ctx.tmpdir)
-    lib_arg = lib_file(pb, ctx.tmpdir, "lib%d.hdf5" % i) if as_file else (N if as_int else pb.lib)
+    # one file name, re-used by every session (the stored units vary from session to session)
+    lib_arg = lib_file(pb, ctx.tmpdir, "library.hdf5") if as_file else (N if as_int else pb.lib)
     Inject.active = inj
+    snap = snapshot_inputs(pb)
     try:
         out, lls = joker.rejection_sample(pb.data, lib_arg, return_all_logprobs=True, **dress_counts(rng, opts, desc))
     except Exception as e:
@@ -544,6 +563,9 @@ def one_session(ctx, i, rng, return_logprobs=False, force=None, problem_kw=None,
             os.unlink(lib_arg)
     events = list(recgen.EVENTS)
     bad, info = check_rejection_history(pb, opts, out, lls, events, ll_lib)
+    changed = inputs_changed(pb, snap)
+    if changed:
+        bad = list(bad) + [("caller-input-modified", "rejection_sample changed arrays that belong to the caller: %s" % changed)]
     return pb, opts, out, lls, events, ll_lib, bad, info, desc, inj_kind, trunc, as_file
 
 
@@ -704,7 +726,7 @@ def iterative_session(ctx, i, rng, return_logprobs=False, problem_kw=None):
     recgen.reset()
     g = recgen.make(seed)
     joker = TheJoker(pb.prior, rng=g, tempfile_path=ctx.tmpdir)
-    lib_arg = lib_file(pb, ctx.tmpdir, "ilib%d.hdf5" % i) if as_file else pb.lib
+    lib_arg = lib_file(pb, ctx.tmpdir, "library.hdf5") if as_file else pb.lib
     Inject.active = inj
     Inject.tagP = pb.tagP
     Inject.tagger = (lambda P_: tags_of(pb, P_)[0])
